@@ -37,7 +37,10 @@ Access(s) ==
                      /\ V("set", s, i, 77, SetByte(s, i, 77))
   /\ \A a \in IdxsOf(Len(s)), b \in IdxsOf(Len(s)) : V("range", s, a, b, RangeOf(s, a, b)) /\ V("incl", s, a, b, RangeIncl(s, a, b))
   /\ \A m \in OthersOf(Len(s)), q \in {1, 2, 3, 5} : VO("eq", s, m, q, Content(m, q), [k |-> "bool", v |-> s = Content(m, q)])
-Cat(s) == \A m \in OthersOf(Len(s)), q \in {4, 5} : VO("concat", s, m, q, Content(m, q), Bytes(Concat(s, Content(m, q))))
+\* concat: every short length and every long one as the argument of every short receiver; for long receivers the edge lengths
+\* and the lengths around 24/32 (a receiver shorter than, equal to and longer than the argument; totals across 32 and 64)
+CatOthers(len) == IF len <= MaxLen THEN (0..MaxLen) \cup LongLens ELSE OthersOf(len) \cup {24, 25, 32, 33, len + 1, 2 * len + 1}
+Cat(s) == \A m \in CatOthers(Len(s)), q \in {4, 5} : VO("concat", s, m, q, Content(m, q), Bytes(Concat(s, Content(m, q))))
 Next == /\ ~done /\ done' = TRUE /\ UNCHANGED <<n, p>>
         /\ IF Mode = "access" THEN Access(Content(n, p)) ELSE Cat(Content(n, p))
 =============================================================================
